@@ -37,12 +37,36 @@ polling interval after `c` — with `CancelledError`, unless a matching response
 first (`returned`/`raised`) or the deadline came first (`timedOut`, which by
 `c14_timeout_at_deadline` means `D ≤ c + P`). -/
 theorem c14_cancel_latency (R : Int → Bool) (cfg : Cfg α) (ev : List (Nat × In α)) (c : Nat)
-    (hc : cfg.cancelAt = some c) (hw : cfg.writer ≠ .blocked) : (run R cfg ev).time ≤ c + cfg.P := by
+    (hc : cfg.cancelAt = some c) (hw : cfg.writer.prompt = true) : (run R cfg ev).time ≤ c + cfg.P := by
   unfold run
   split
   · simp
   · have := loop_cancel_latency R cfg c hc hw 0 ev [.request] [] 0
     simpa using this
+
+/-- A peer that is slow to read (`stalledUntil r`): the cancelled notification goes out when the
+peer reads again, and the call ends cancelled THEN — never later than `max (c + P) r`, never
+later than the deadline — having written exactly one notification; if the peer does not read
+again before the deadline the call ends there with `TimeoutError`. -/
+theorem c14_stalled_writer (R : Int → Bool) (cfg : Cfg α) (ev : List (Nat × In α)) (r : Nat)
+    (hw : cfg.writer = .stalledUntil r) :
+    (run R cfg ev).time ≤ cfg.D
+    ∧ ((run R cfg ev).outcome = .cancelled → (run R cfg ev).writes.count Write.cancelNotif = 1)
+    ∧ ((run R cfg ev).outcome ≠ .cancelled → (run R cfg ev).writes.count Write.cancelNotif = 0) := by
+  refine ⟨c14_deadline R cfg ev, ?_, ?_⟩
+  · intro h
+    by_cases hp : cfg.preCancelled = true
+    · simp [run, hp]
+    · have hrun : run R cfg ev = loop R cfg 0 ev [.request] [] 0 := by simp [run, hp]
+      rw [hrun] at h ⊢
+      rw [loop_writes, h]; simp [Outcome.isCancelled, hw]
+  · intro h
+    by_cases hp : cfg.preCancelled = true
+    · simp [run, hp] at h
+    · have hrun : run R cfg ev = loop R cfg 0 ev [.request] [] 0 := by simp [run, hp]
+      rw [hrun] at h ⊢
+      rw [loop_writes]
+      cases ho : (loop R cfg 0 ev [Write.request] [] 0).outcome <;> simp_all [Outcome.isCancelled]
 
 /-- The guard of `c14_cancel_latency` is exact.  The cancelled notification is written INSIDE the
 deadline scope; when the write stream cannot take it (the peer has stopped reading and the buffer
@@ -56,7 +80,7 @@ theorem c14_blocked_writer (R : Int → Bool) (cfg : Cfg α) (ev : List (Nat × 
   have hnc := loop_blocked_not_cancelled R cfg 0 ev [.request] [] 0 hw
   refine ⟨by rw [hrun]; exact hnc, ?_, c14_deadline R cfg ev⟩
   rw [hrun, loop_writes, hw]
-  cases h : (loop R cfg 0 ev [Write.request] [] 0).outcome <;> simp_all
+  cases h : (loop R cfg 0 ev [Write.request] [] 0).outcome <;> simp_all [Outcome.isCancelled]
 
 /-- `CancelledError` is raised only if the token fired: already before the call, or at a tick
 not later than the completion tick (and before the deadline). -/
@@ -84,7 +108,7 @@ theorem c14_one_cancel_notification (R : Int → Bool) (cfg : Cfg α) (ev : List
   · simp
   · rw [loop_writes]
     have hb := loop_blocked_not_cancelled R cfg 0 ev [.request] [] 0
-    cases h : (loop R cfg 0 ev [Write.request] [] 0).outcome <;> cases hw : cfg.writer <;> simp_all
+    cases h : (loop R cfg 0 ev [Write.request] [] 0).outcome <;> cases hw : cfg.writer <;> simp_all [Outcome.isCancelled]
 
 /-- A request cancelled before sending is never sent. -/
 theorem c14_cancel_before_send_writes_no_request (R : Int → Bool) (cfg : Cfg α)
@@ -107,7 +131,7 @@ theorem c14_progress_exact (R : Int → Bool) (cfg : Cfg α) (ev : List (Nat × 
 /-- ... and the consumed prefix is everything that arrived strictly before completion: an
 entry of a time-ordered history that was not consumed arrives no earlier than the completion tick. -/
 theorem c14_consumed_is_before_completion (R : Int → Bool) (cfg : Cfg α) (ev : List (Nat × In α))
-    (hs : Sorted ev) (hp : cfg.preCancelled = false) (hw : cfg.writer ≠ .blocked) :
+    (hs : Sorted ev) (hp : cfg.preCancelled = false) (hw : cfg.writer.prompt = true) :
     ∀ x ∈ ev.drop (run R cfg ev).consumed, (run R cfg ev).time ≤ x.1 := by
   have hrun : run R cfg ev = loop R cfg 0 ev [.request] [] 0 := by simp [run, hp]
   rw [hrun]
@@ -194,7 +218,7 @@ theorem c14_shared_token (R : Int → Bool) (fire : Option Nat) (s0 : Nat)
           have : (run R (withToken cfg (some f) s0) ev).time = 0 := by simp [run, hp]
           omega
         · have hc : (withToken cfg (some f) s0).cancelAt = some (f - s0) := by simp [withToken, hle]
-          have := c14_cancel_latency R _ ev _ hc (by simp [hwo])
+          have := c14_cancel_latency R _ ev _ hc (by simp [hwo, Writer.prompt])
           have hP : (withToken cfg (some f) s0).P = cfg.P := by simp [withToken, hle]
           omega
     · obtain ⟨h1, h2, h3, h4, h5⟩ := ih _ (fun r hr => hopen r (List.mem_cons_of_mem _ hr)) x hx
@@ -277,6 +301,14 @@ example : (run (fun _ => true) { exCfg with writer := .blocked } []).outcome = .
     ∧ (run (fun _ => true) { exCfg with writer := .blocked } []).time = 4096
     ∧ (run (fun _ => true) { exCfg with writer := .closed } []).outcome = .cancelled
     ∧ (run (fun _ => true) { exCfg with writer := .closed } []).writes = [.request] := by
+  simp [exCfg, run, loop, onCancel, cancelVisible, Verif.Gen.Timing.pollMs]
+
+/-- the peer reads again at tick 1500 (before the deadline): cancelled then, one notification;
+at tick 5000 (after the deadline 4096): timeout at the deadline, none -/
+example : (run (fun _ => true) { exCfg with writer := .stalledUntil 1500 } []).outcome = .cancelled
+    ∧ (run (fun _ => true) { exCfg with writer := .stalledUntil 1500 } []).time = 1500
+    ∧ (run (fun _ => true) { exCfg with writer := .stalledUntil 1500 } []).writes = [.request, .cancelNotif]
+    ∧ (run (fun _ => true) { exCfg with writer := .stalledUntil 5000 } []).outcome = .timedOut := by
   simp [exCfg, run, loop, onCancel, cancelVisible, Verif.Gen.Timing.pollMs]
 
 end Verif.Props.C14
